@@ -255,6 +255,9 @@ def _discard_path(ctx):
     # out in arrival order (shared with C03.e) - otherwise a payload is dropped while its own reader has yet to run
     import c03
     n = core.adopt(ctx, c03, lambda o: o["rule"] == "C03.e" and ("EventAccessTracker" in o["key"]), "C05.e")
+    # every run's cleanup ends exactly the trackers its setup started: an end() of the event tracker without a start() hands the
+    # *previous* event's data entity to the release helper (one decrement too many: the payload goes before its last reader)
+    n += core.adopt(ctx, c03, lambda o: o["rule"] == "C03.a" and ("prepare=start=end" in o["key"] or "arm-calls-the-runner" in o["key"]), "C05.e")
     ctx.floor("C05.e", n, 6, "shared claim-order obligations of the event trackers (C03.e)")
 
 
